@@ -21,7 +21,7 @@ def run(ctx, clauses=CLAUSES, label='dataflow'):
         c = ctx.replay['case']
         cases = [(c['prog'], c['inputs'])]
     else:
-        cases = D.directed(ctx.rng) + D.gen_cases(ctx.rng, 24 if ctx.quick else 450, 3 if ctx.quick else 4)
+        cases = D.directed(ctx.rng, ctx.seed) + D.gen_cases(ctx.rng, 24 if ctx.quick else 450, 3 if ctx.quick else 4)
     progs, runs = D.run_cases(ctx, label, cases)
     groups = D.report(ctx, label, clauses, cases, progs, runs)
     D.cover(ctx, label, clauses, cases, progs, runs)
